@@ -104,7 +104,7 @@ func (a ConstInt64) GetN() int {
 /* json
  * -------------------------------------------------------------------------- */
 func (obj ConstInt64) MarshalJSON() ([]byte, error) {
-  return json.Marshal(obj)
+  return json.Marshal(int64(obj))
 }
 /* math
  * -------------------------------------------------------------------------- */
